@@ -283,6 +283,8 @@ def with_ref(lines):
 
 
 def streams(ctx, rng, scale):
+    lw = vlib.witness_lines(PROP)
+    ctx.correspond("finding-witnesses", "ptr", lw, oracle, nontrivial, ref_lines=with_ref(lw))
     la = rfc_lines()
     ctx.correspond("rfc6901-examples", "ptr", la, oracle, nontrivial, ref_lines=with_ref(la))
     lt = gen_text_lines(rng, 1500 * scale)
